@@ -480,8 +480,14 @@ func TestPropImages(t *testing.T) {
 		tables := []gen.TableSpec{gen.DrawTable(rt, 0)}
 		c := Case{Tables: tables, Stmt: gen.DrawStmt(rt, tables, stmtOptions()), OnlyUpdate: rapid.Bool().Draw(rt, "onlyUpdate"),
 			Via: rapid.SampledFrom([]string{"db", "conn"}).Draw(rt, "via"), BufReuse: rapid.Bool().Draw(rt, "bufReuse"), AutoStep: rapid.SampledFrom([]int64{0, 0, 1, 2, 5}).Draw(rt, "autoStep")}
-		if rapid.IntRange(0, 4).Draw(rt, "prelude") == 0 {
+		switch rapid.IntRange(0, 7).Draw(rt, "prelude") {
+		case 0:
 			c.Prelude = gen.DupInsert(rt, tables)
+		case 1:
+			// an UPDATE that finds its row and is then rejected (NULL for a NOT NULL column)
+			if c.Prelude = gen.FailingUpdate(rt, tables); c.Prelude == nil {
+				c.Prelude = gen.DupInsert(rt, tables)
+			}
 		}
 		fl := runCase(c)
 		record("images", c)
